@@ -6,7 +6,7 @@ ID=$1; P=$2; TIER=${3:-quick}
 WT=/tmp/seedtest_$ID
 git -C /repo worktree remove --force $WT 2>/dev/null
 git -C /repo worktree add -q --detach $WT HEAD || exit 2
-git -C $WT apply /verif/seeded/$ID/patch.diff || { echo "patch does not apply"; git -C /repo worktree remove --force $WT; exit 2; }
+git -C $WT apply /verif/seeded/$ID/patch.diff 2>/dev/null || git -C $WT apply /verif/seeded/$ID/patch_rebased.diff || { echo "patch does not apply"; git -C /repo worktree remove --force $WT; exit 2; }
 cd /verif && VERIF_REPO=$WT bin/check $P --tier $TIER --no-evidence 2>&1 | cut -c1-400 | tail -${TAIL:-12}
 RC=${PIPESTATUS[0]}
 git -C /repo worktree remove --force $WT
